@@ -175,6 +175,27 @@ func register() {
 		}
 		return map[string]interface{}{"ran": ran}
 	}
+	// {"bodies":[raw request bodies], "shared":bool}: requests through the playground HTTP handler one after the other (one
+	// handler over one interpreter, or a new handler and interpreter per request): [status, body] of every response
+	commands["pgseq"] = func(in map[string]interface{}) map[string]interface{} {
+		shared, _ := in["shared"].(bool)
+		var h http.Handler
+		if shared {
+			h = server.NewZnPlaygroundHandler(exec.NewInterpreter("verif").SetExternalLibs(libs()))
+		}
+		outs := []interface{}{}
+		for _, b := range in["bodies"].([]interface{}) {
+			hh := h
+			if !shared {
+				hh = server.NewZnPlaygroundHandler(exec.NewInterpreter("verif").SetExternalLibs(libs()))
+			}
+			req := httptest.NewRequest(http.MethodPost, "/", strings.NewReader(b.(string)))
+			rec := httptest.NewRecorder()
+			hh.ServeHTTP(rec, req)
+			outs = append(outs, []interface{}{rec.Code, rec.Body.String()})
+		}
+		return map[string]interface{}{"outs": outs}
+	}
 	// {"n":goroutines, "iters":k}: real concurrency through the playground HTTP handler over one interpreter;
 	// request j must be answered with j's own result
 	commands["concurrent"] = func(in map[string]interface{}) map[string]interface{} {
